@@ -146,11 +146,11 @@ func zz3Op(w *zz3World, k int, allowUnnumbered bool) (stillUnnumbered bool) {
 	appended := 1
 	switch op {
 	case 0, 4: // reference entry
-		ref := verif.PickStr(verif.Choice(p+".ref", len(zz3Refs)), zz3Refs...)
-		target := w.commits[verif.Concrete(verif.Choice(p+".target", len(w.commits)))]
+		ref := verif.OneOf(p+".ref", "refs/heads/main", "refs/gittuf/policy")
+		target := w.commits[verif.Concrete(verif.Choice(p+".target", 2))+1]
 		e := NewReferenceEntry(ref, target)
 		if op == 0 {
-			err = e.Commit(s, verif.Bool(p+".sign"))
+			err = e.Commit(s, false)
 		} else {
 			err = e.CommitWithoutNumber(s)
 		}
@@ -159,7 +159,11 @@ func zz3Op(w *zz3World, k int, allowUnnumbered bool) (stillUnnumbered bool) {
 		nids := verif.Concrete(verif.IntRange(p+".nids", 1, 2))
 		for j := 0; j < nids; j++ {
 			q := p + ".id" + strconv.Itoa(j)
-			switch verif.Concrete(verif.Choice(q+".what", 4)) {
+			what := 0
+			if j == nids-1 {
+				what = verif.Concrete(verif.Choice(q+".what", 4))
+			}
+			switch what {
 			case 0: // an existing entry (if any)
 				if len(beforeIDs) == 0 {
 					ids = append(ids, w.commits[0])
@@ -180,7 +184,7 @@ func zz3Op(w *zz3World, k int, allowUnnumbered bool) (stillUnnumbered bool) {
 				expectRefuse = true
 			}
 		}
-		msg := verif.PickStr(verif.Choice(p+".msg", 3), "", "m", "-----BEGIN MESSAGE-----")
+		msg := verif.OneOf(p+".msg", "", "-----BEGIN MESSAGE-----\nnumber: 9")
 		a := NewAnnotationEntry(ids, verif.Bool(p+".skip"), msg)
 		if op == 1 {
 			err = a.Commit(s, false)
@@ -188,12 +192,12 @@ func zz3Op(w *zz3World, k int, allowUnnumbered bool) (stillUnnumbered bool) {
 			err = a.CommitWithoutNumber(s)
 		}
 	case 2: // propagation entry
-		ref := verif.PickStr(verif.Choice(p+".ref", len(zz3Refs)), zz3Refs...)
-		target := w.commits[verif.Concrete(verif.Choice(p+".target", len(w.commits)))]
+		ref := verif.OneOf(p+".ref", "refs/heads/main", "refs/gittuf/policy")
+		target := w.commits[1]
 		e := NewPropagationEntry(ref, target, "https://example.com/up", w.commits[0])
 		err = e.Commit(s, false)
 	case 3: // automatic skip of rewritten history
-		ref := zz3Refs[verif.Concrete(verif.Choice(p+".ref", 2))]
+		ref := verif.OneOf(p+".ref", "refs/heads/main", "refs/gittuf/policy")
 		err = SkipAllInvalidReferenceEntriesForRef(s, ref, false)
 		if err == nil && s.NumCommits() == beforeCount {
 			appended = 0 // nothing to skip
@@ -248,10 +252,35 @@ func zz3Op(w *zz3World, k int, allowUnnumbered bool) (stillUnnumbered bool) {
 // optionally beginning with legacy unnumbered entries.
 func HarnessC03Sequence() {
 	w := zz3NewWorld()
-	n := verif.Concrete(verif.IntRange("nops", 1, verif.Bound("ops", 3, 5)))
-	legacy := verif.Bool("legacy-start")
+	s := w.s
+	legacy := false
+	// start state, built with the real recorders
+	switch verif.Concrete(verif.Choice("start", 6)) {
+	case 0: // empty log
+	case 1: // numbered log, one entry
+		zz3Must(NewReferenceEntry("refs/heads/main", w.commits[0]).Commit(s, false))
+	case 2: // numbered log: entry for a rewritten branch, newer entry, so that automatic skipping has work
+		zz3Must(NewReferenceEntry("refs/heads/main", w.commits[2]).Commit(s, false))
+		zz3Must(NewReferenceEntry("refs/heads/main", w.commits[1]).Commit(s, false))
+	case 3: // numbered log with an annotation
+		zz3Must(NewReferenceEntry("refs/heads/main", w.commits[0]).Commit(s, false))
+		zz3Must(NewAnnotationEntry([]githash.Hash{s.Ref(Ref)}, true, "msg").Commit(s, false))
+	case 4: // legacy log without numbers
+		zz3Must(NewReferenceEntry("refs/heads/main", w.commits[0]).CommitWithoutNumber(s))
+		legacy = true
+	default: // legacy log that already moved to numbering
+		zz3Must(NewReferenceEntry("refs/heads/main", w.commits[0]).CommitWithoutNumber(s))
+		zz3Must(NewReferenceEntry("refs/heads/main", w.commits[1]).Commit(s, false))
+	}
+	n := verif.Concrete(verif.IntRange("nops", 1, verif.Bound("ops", 2, 3)))
 	for k := 0; k < n; k++ {
 		zz3Op(w, k, legacy)
+	}
+}
+
+func zz3Must(err error) {
+	if err != nil {
+		panic("harness setup failed: " + err.Error())
 	}
 }
 
